@@ -175,6 +175,17 @@ impl StepKind {
     }
 }
 
+/// Exact state around `apply_connection_changes` (taken inside the housekeeping arm).
+pub struct ReloadSnap {
+    pub list: Vec<IpAddr>,
+    pub before: Vec<(SrtlaConnection, Option<i32>)>,
+    pub after: Vec<(SrtlaConnection, Option<i32>)>,
+    pub selected_before: Option<usize>,
+    pub selected_after: Option<usize>,
+    pub io_keys_after: Vec<u64>,
+    pub binds_failed: u64,
+}
+
 /// Everything a monitor may look at for one step.
 pub struct StepCtx<'a> {
     pub idx: u64,
@@ -205,6 +216,7 @@ pub struct StepCtx<'a> {
     /// Sighup step: result of the analysis (`Ok(ips)` queued, `Err(())` refused).
     pub reload_analysis: Option<&'a Result<Vec<IpAddr>, String>>,
     pub reload_text: Option<&'a Option<String>>,
+    pub reload_snap: Option<&'a ReloadSnap>,
 }
 
 pub trait Monitor {
@@ -529,6 +541,7 @@ pub struct Sim<'p> {
     reload_text: Option<String>,
     last_reload_applied: Option<Vec<IpAddr>>,
     last_reload_analysis: Option<Result<Vec<IpAddr>, String>>,
+    last_reload_snap: Option<ReloadSnap>,
     pub client_addr: SocketAddr,
 }
 
@@ -577,11 +590,18 @@ impl<'p> Sim<'p> {
 
         let binder: Arc<dyn UplinkBinder> = Arc::new(SimBinder { seam: seam.clone() });
         let ips: Vec<IpAddr> = plan.initial_ips();
-        for ip in &ips {
-            seam.with(|s| {
+        // Fixed path numbering: 127.0.1.1..8 are paths 0..7, 127.0.2.1..3 are paths 8..10.
+        seam.with(|s| {
+            for i in 0..8 {
+                s.path_for_ip(path_ip(i));
+            }
+            for i in 1..=3u8 {
+                s.path_for_ip(IpAddr::V4(Ipv4Addr::new(127, 0, 2, i)));
+            }
+            for ip in &ips {
                 s.path_for_ip(*ip);
-            });
-        }
+            }
+        });
         let mut conn_io: sh::ConnIoMap = HashMap::new();
         let conns =
             create_connections_from_ips(&ips, "127.0.0.1", RECEIVER_PORT, &binder, &mut conn_io)
@@ -669,6 +689,7 @@ impl<'p> Sim<'p> {
             reload_text: None,
             last_reload_applied: None,
             last_reload_analysis: None,
+            last_reload_snap: None,
             client_addr: "127.0.0.1:40000".parse().unwrap(),
         };
         for (i, a) in plan.actions.iter().enumerate() {
@@ -747,20 +768,24 @@ impl<'p> Sim<'p> {
                         continue;
                     }
                     // The reader task of the connection whose socket has this address.
-                    let fd = self.seam.with(|s| s.path_fd[path]);
-                    let conn_id = self
-                        .world
-                        .conn_io
-                        .iter()
-                        .find(|(_, io)| io.socket.as_raw_fd() == fd)
-                        .map(|(id, _)| *id)
-                        .or_else(|| {
-                            self.world
-                                .conns
-                                .iter()
-                                .find(|c| c.local_ip == ip)
-                                .map(|c| c.conn_id)
-                        });
+                    // (An fd number may have been reused by another path's socket after
+                    // this path's link was removed: the path then has no live socket.)
+                    let fd = self.seam.with(|s| {
+                        let fd = s.path_fd[path];
+                        (s.fd_path.get(&fd) == Some(&path)).then_some(fd)
+                    });
+                    let _ = ip;
+                    let conn_id = fd.and_then(|fd| {
+                        let mut owners: Vec<u64> = self
+                            .world
+                            .conn_io
+                            .iter()
+                            .filter(|(_, io)| io.socket.as_raw_fd() == fd)
+                            .map(|(id, _)| *id)
+                            .collect();
+                        owners.sort_unstable();
+                        owners.first().copied()
+                    });
                     let Some(conn_id) = conn_id else {
                         self.stats.inc("net.dropped_no_reader");
                         continue;
@@ -959,6 +984,7 @@ impl<'p> Sim<'p> {
         let chan_before = self.chan_mirror.len();
         self.last_reload_applied = None;
         self.last_reload_analysis = None;
+        self.last_reload_snap = None;
         let mut first_uplink: Option<(u64, Vec<u8>)> = None;
 
         // ---- main action of the arm ----
@@ -1060,6 +1086,13 @@ impl<'p> Sim<'p> {
                         if let Some(changes) = w.pending_changes.take()
                             && let Some(new_ips) = changes.new_ips
                         {
+                            let before: Vec<(SrtlaConnection, Option<i32>)> = w
+                                .conns
+                                .iter()
+                                .map(|c| (c.clone(), w.conn_io.get(&c.conn_id).map(|i| i.socket.as_raw_fd())))
+                                .collect();
+                            let selected_before = w.last_selected_idx;
+                            let fails_before = self.seam.with(|s| s.fired.get("fault.bind_failure"));
                             apply_connection_changes(
                                 &mut w.conns,
                                 &mut w.conn_io,
@@ -1072,6 +1105,21 @@ impl<'p> Sim<'p> {
                             )
                             .await;
                             self.last_reload_applied = Some(new_ips.iter().copied().collect());
+                            let mut io_keys_after: Vec<u64> = w.conn_io.keys().copied().collect();
+                            io_keys_after.sort_unstable();
+                            self.last_reload_snap = Some(ReloadSnap {
+                                list: new_ips.iter().copied().collect(),
+                                before,
+                                after: w
+                                    .conns
+                                    .iter()
+                                    .map(|c| (c.clone(), w.conn_io.get(&c.conn_id).map(|i| i.socket.as_raw_fd())))
+                                    .collect(),
+                                selected_before,
+                                selected_after: w.last_selected_idx,
+                                io_keys_after,
+                                binds_failed: self.seam.with(|s| s.fired.get("fault.bind_failure")) - fails_before,
+                            });
                             sh::sync_readers(&w.conns, &w.conn_io, &mut w.readers, &w.packet_tx);
                         }
                         sh::sync_readers(&w.conns, &w.conn_io, &mut w.readers, &w.packet_tx);
@@ -1248,6 +1296,7 @@ impl<'p> Sim<'p> {
                 } else {
                     None
                 },
+                reload_snap: self.last_reload_snap.as_ref(),
             };
             for m in monitors.iter_mut() {
                 m.on_step(&ctx, &mut self.out);
